@@ -49,6 +49,28 @@ def sessClauses (env : List Ans) (rs : List Res) (left : Nat) : List (String × 
     ("hang-only-when-environment-silent", !rs.contains .hang || left == 0),
     ("closed-only-by-a-failure", (closedIds rs).all fun e => (failures env).contains e) ]
 
+/-- A lazy channel is built without connecting; an eager one connects first, and that may fail
+only with a failure that happened, or hang only if the environment went silent. -/
+def sessBuildClauses (isLazy : Bool) (env : List Ans) (b : SessBuild) (left : Nat) : List (String × Bool) :=
+  [ ("build-matches-mode", match b with
+      | .none => isLazy
+      | .ok => !isLazy
+      | .fail _ => !isLazy
+      | .hang => !isLazy
+      | .panic => false),
+    ("build-fails-only-by-a-failure", match b with
+      | .fail e => (failures env).contains e
+      | .none => true
+      | .ok => true
+      | .hang => true
+      | .panic => true),
+    ("hang-only-when-environment-silent", match b with
+      | .hang => left == 0
+      | .none => true
+      | .ok => true
+      | .fail _ => true
+      | .panic => true) ]
+
 /-! ### end-to-end fault scripts -/
 
 /-- Outcome of the `k`-th connection attempt (1-based); past the end of the script: refused. -/
